@@ -35,7 +35,7 @@ func TestC20ServerDone(t *testing.T) {
 						idx += nh + 1
 						continue
 					}
-					em.Marker("begin", idx)
+					stBegin(em, idx)
 					first := idx
 					hs := newStatsSet(nh)
 					log := &chainLog{}
@@ -133,7 +133,7 @@ func TestC20ServerDone(t *testing.T) {
 					em.Emit(Rec{Idx: idx, Kind: "chain-server-done", Desc: desc, Tags: tags,
 						Coq: fmt.Sprintf("CChainE2E %s None %s 0 %s", coqBool(stream), behsCoq(bs), cresCoq(rep, ecode, log.take()))})
 					idx++
-					em.Marker("end", first)
+					stEnd(em, first)
 				}
 			}
 		}
